@@ -41,7 +41,12 @@ structure Ent where
   name : Str
 deriving DecidableEq, Repr
 
-def Ent.key (e : Ent) : Str × Str := (e.dir, e.name)
+/-- the key of the counter `_counts[get_dir()][...]`: the name as written (`lk = false`, the code
+    before commit 8dec555) or the lower-cased name (`lk = true`) -/
+def Ent.keyAs (lk : Bool) (e : Ent) : Str × Str := (e.dir, if lk then lower e.name else e.name)
+
+/-- the key the working tree uses (switch generated from the AST of `get_name`) -/
+def Ent.key (e : Ent) : Str × Str := e.keyAs Gen.C12.countKeyLower
 
 /-- the `for symbol, replacement in {...}.items(): name = name.replace(...)` loop;
     all symbols are single characters and no replacement contains a symbol, so the
@@ -61,19 +66,23 @@ def mkIdent (name : Str) (num : Nat) : Str :=
 
 /-- `seen` is `_items` (most recent first); `_counts[dir][name]` is the number of
     distinct items already seen under that key. -/
-def numberAux : List Ent → List Ent → List (Ent × Nat)
+def numberAux (lk : Bool) : List Ent → List Ent → List (Ent × Nat)
   | _, [] => []
   | seen, e :: rest =>
-    if seen.any (fun s => s.uid == e.uid) then numberAux seen rest
-    else (e, (seen.filter (fun s => s.key == e.key)).length + 1) :: numberAux (e :: seen) rest
+    if seen.any (fun s => s.uid == e.uid) then numberAux lk seen rest
+    else (e, (seen.filter (fun s => s.keyAs lk == e.keyAs lk)).length + 1) :: numberAux lk (e :: seen) rest
 
 /-- numbers assigned by a fresh NameSelector to a sequence of `get_name` requests,
     in order of first request -/
-def numberN (reqs : List Ent) : List (Ent × Nat) := numberAux [] reqs
+def numberNWith (lk : Bool) (reqs : List Ent) : List (Ent × Nat) := numberAux lk [] reqs
 
 /-- identifiers assigned (`item.ident`) -/
-def number (reqs : List Ent) : List (Ent × Str) :=
-  (numberN reqs).map (fun p => (p.1, mkIdent p.1.name p.2))
+def numberWith (lk : Bool) (reqs : List Ent) : List (Ent × Str) :=
+  (numberNWith lk reqs).map (fun p => (p.1, mkIdent p.1.name p.2))
+
+/-- ... by the NameSelector of the working tree -/
+def numberN (reqs : List Ent) : List (Ent × Nat) := numberNWith Gen.C12.countKeyLower reqs
+def number (reqs : List Ent) : List (Ent × Str) := numberWith Gen.C12.countKeyLower reqs
 
 def numOf (asg : List (Ent × Nat)) (uid : Nat) : Option Nat :=
   (asg.find? (fun p => p.1.uid == uid)).map (·.2)
